@@ -153,7 +153,59 @@ func TestC01Grid(t *testing.T) {
 			r.Violation("bubble", "bubble-failure", "bubble failed: "+fail, nil)
 		}
 	}
+	// pinned points, in every tier: heuristic lifetimes that are no whole
+	// seconds at sub-second offsets, repeated and unreadable max-age next to
+	// Expires / Last-Modified
+	for k, pc := range c01Pinned() {
+		i := n + k
+		if !r.Mine(i) {
+			continue
+		}
+		r.Begin(i, pc)
+		if fail := r.Bubble(func() { c01RunGrid(r, pc) }); fail != "" {
+			r.Violation("bubble", "bubble-failure", "bubble failed: "+fail, nil)
+		}
+	}
 	r.Done()
+}
+
+func c01Pinned() []c01Case {
+	var out []c01Case
+	idx := func(xs []string, v string) int {
+		for i, x := range xs {
+			if x == v {
+				return i
+			}
+		}
+		panic("c01Pinned: " + v)
+	}
+	enc := func(ma, ex, lm, ag, dt, st string, dl int) int {
+		dims := []int{idx(c01MaxAge, ma), idx(c01Expires, ex), idx(c01LastMod, lm), idx(c01Age, ag), idx(c01Date, dt), idx(c01Status, st), dl}
+		sizes := []int{len(c01MaxAge), len(c01Expires), len(c01LastMod), len(c01Age), len(c01Date), len(c01Status), len(c01Delay)}
+		cfg, mul := 0, 1
+		for i := range dims {
+			cfg += dims[i] * mul
+			mul *= sizes[i]
+		}
+		return cfg
+	}
+	for _, lm := range []string{"-105", "-5", "-100"} {
+		for _, st := range []string{"200", "404", "302public"} {
+			for _, sub := range []int{0, 300, 999} {
+				c := c01Decode(enc("", "", lm, "", "", st, 0))
+				c.SubMs = sub
+				out = append(out, c)
+			}
+		}
+	}
+	for _, ma := range []string{"0, max-age=3600", "10, MAX-AGE=100000", "abc", "-5"} {
+		for _, ex := range []string{"", "+10"} {
+			for _, lm := range []string{"", "-864000"} {
+				out = append(out, c01Decode(enc(ma, ex, lm, "", "", "200", 0)))
+			}
+		}
+	}
+	return out
 }
 
 func c01RunGrid(r *run.Runner, c c01Case) {
